@@ -20,7 +20,7 @@ Definition gen_assembleOffset (message_Offset message_LeaderEpoch : Z) : Z :=
 Definition gen_disassembleOffset (assembledOffset : Z) : Z * Z :=
   let offset := (go_shr I64 assembledOffset 16) in
   let epoch := (go_conv I32 (go_and I64 assembledOffset 65535)) in
-  (offset, epoch).
+  ((go_add I64 offset 1), epoch).
 
 (* Plugin.Commit: index, partition := disassembleSourceID(event.SourceID); offset := disassembleOffset(event.Offset);
    MarkCommitOffsets({ Topics[index]: { partition: offset } }).   Result: (topic index, partition key, (Offset, Epoch) to mark) *)
